@@ -141,8 +141,10 @@ theorem C18_model_meets_spec (i : Input) (h : WF i = true) : specOK (run i) = tr
 
 /-- every damage class shoot diagnoses itself is handled cleanly,
     for every sub-command and whatever the command line would have written -/
-theorem C18_diagnosed_classes_clean (cmd : Cmd) (d : Damage) (outs stale : List String) :
+theorem C18_diagnosed_classes_clean (cmd : Cmd) (d : Damage) (outs stale : List String) (hreg : region d = .WF) :
     specOK (run (classify cmd d outs stale)) = true := by
+  have hng : d ≠ .cleanGlobBad := by
+    intro h; subst h; simp [region] at hreg
   by_cases hd : d = .outputBlocked
   · -- the first output cannot be put in place: an I/O error in the first notedownSrc, nothing has been written yet
     subst hd
@@ -150,7 +152,7 @@ theorem C18_diagnosed_classes_clean (cmd : Cmd) (d : Damage) (outs stale : List 
     | nil => rfl
     | cons f r => simp [classify, run, preExit, writeAll, specOK, Exit.code]
   · apply C18_model_meets_spec
-    cases d <;> cases cmd <;> first | rfl | exact absurd rfl hd
+    cases d <;> cases cmd <;> first | rfl | exact absurd rfl hd | exact absurd rfl hng
 
 /-! ### second tie: the regenerated tables -/
 
@@ -177,6 +179,59 @@ theorem C18_list_index_sites :
     Facts.listIndexSites =
       [ ("restclient", "cookClient", "ftype.Results.List", "n - 1", ["n := 0", "n = len(ftype.Results.List)"]),
         ("restclient", "cookClient", "ftype.Results.List", "n - 2", ["n := 0", "n = len(ftype.Results.List)"]) ] := by decide
+
+/-- the phases of main.main in source order (regenerated on every run): parse flags, load, generate everything, THEN the write
+    loop, THEN the clean-up - the order of the phase machine `run` -/
+theorem C18_phase_order :
+    Facts.mainPhases = [("ParseFlags", false), ("LoadPackage", false), ("Generate", false), ("notedownSrc", true), ("Clean", false)] := by
+  decide
+
+/-- every place where the source compiles or matches a regular expression, a glob pattern or a template text (regenerated on every
+    run) builds it from string literals, package-level string constants and values passed through regexp.QuoteMeta - except three:
+      * `printDeclWithOwnComments`: `"(?m)^package " + pkgName + "$"` - pkgName is the name in the package clause of a parsed file,
+        a Go identifier (letters, digits, `_`): no metacharacter possible;
+      * `tmpl`: the template text is one of the four embedded `.tmpl` files, fixed at build time;
+      * `Clean`: `filepath.Glob(filepath.Join(Dir, "*.shoot<cmd>*.go"))` - Dir IS user-controlled (the `[dir]` argument) and is not
+        escaped: finding F_glob_dir (`C18_F_glob_dir_witness`, C17's `C17_F_glob_dir_witness`).
+    A new site that interpolates anything else - a flag value such as `-alias`, a type name - breaks this theorem -/
+theorem C18_pattern_sites_classified :
+    Facts.patternSites.filter (fun s => s.2.2.2.1 != "literal" && s.2.2.2.1 != "quoted") =
+      [ ("shoot", "Clean", "filepath.Glob", "dynamic", ["g.commonFlags.Dir", "g.subCmd"]),
+        ("shoot", "printDeclWithOwnComments", "regexp.MustCompile", "dynamic", ["pkgName"]),
+        ("shoot", "tmpl", "template.Parse", "dynamic", ["g.tmplTxt"]) ] := by decide
+
+/-- finding F_glob_dir: with an unclosed `[` in the `[dir]` argument Clean's pattern is malformed, Clean returns the error and main
+    exits 1 AFTER the all-in-one file has been written -/
+theorem C18_F_glob_dir_witness :
+    region .cleanGlobBad = .F_glob_dir ∧
+    run (classify .new .cleanGlobBad ["a.shootnew.go"] ["a.shootnew.user.go"]) = (.fatal, [.write "a.shootnew.go"]) ∧
+    specOK (run (classify .new .cleanGlobBad ["a.shootnew.go"] ["a.shootnew.user.go"])) = false := by decide
+
+/-- every literal index into a slice of a go/ast node (`.Names[0]`, `.List[0]`, ... ; regenerated on every run) stands in a function
+    that tests `len()` of a slice of that field - the last column lists those tests. Two of these sites were runtime panics on damaged
+    input before they got their guard (`p.Names[0]` in parseCtors on a constructor with unnamed parameters, /repo 0dbe2aa;
+    `param.Names[0]` / `recv.Names[0]` in parseManual, /repo a51cc44). The one site without a test of its own, `method.Names[0]` in
+    restclient.methodSignature, is reached only from cookClient's branch for fields with `len(field.Names) != 0`.
+    A site that loses its guard, or a new unguarded site, breaks this theorem; whether a guard is SUFFICIENT is what the
+    damaged-input runs sample (every parameter / result / receiver list shape, see tools/vlib/cligen.py) -/
+theorem C18_ast_index_sites_guarded :
+    Facts.astIndexSites =
+      [ ("mapper", "extractParamToFieldMap", "ret.Results", "0", ["ret.Results"]),
+        ("mapper", "parseCtors", "fn.Type.Results.List", "0", ["fn.Type.Results.List", "params.List"]),
+        ("mapper", "parseCtors", "p.Names", "0", ["params.List[0].Names"]),
+        ("mapper", "parseCtors", "params.List", "0", ["fn.Type.Results.List", "params.List"]),
+        ("mapper", "parseGetSetMethods", "fn.Recv.List", "0", ["fn.Recv.List", "params.List", "results.List"]),
+        ("mapper", "parseGetSetMethods", "params.List", "0", ["fn.Recv.List", "params.List", "results.List"]),
+        ("mapper", "parseGetSetMethods", "results.List", "0", ["fn.Recv.List", "params.List", "results.List"]),
+        ("mapper", "parseManual", "fn.Recv.List", "0", ["fn.Recv.List", "fn.Type.Params.List", "fn.Type.Results.List"]),
+        ("mapper", "parseManual", "fn.Type.Params.List", "0", ["fn.Recv.List", "fn.Type.Params.List", "fn.Type.Results.List"]),
+        ("mapper", "parseManual", "param.Names", "0", ["param.Names", "recv.Names"]),
+        ("mapper", "parseManual", "recv.Names", "0", ["param.Names", "recv.Names"]),
+        ("mapper", "parseMapper", "fn.Recv.List", "0", ["fn.Recv.List"]),
+        ("restclient", "cookClient", "field.Names", "0", ["field.Names", "r.Names"]),
+        ("restclient", "cookClient", "ftype.Results.List", "0", ["ftype.Results.List"]),
+        ("restclient", "methodSignature", "method.Names", "0", []),
+        ("shoot", "MergeSources", "files[0].Comments", "0", ["files[0].Comments"]) ] := by decide
 
 /-- before the first write, exits come in exactly two flavours: os.Exit (only in main and ParseCommonFlags:
     usage, exit 2) and logx.Fatal* (exit 1) -/
